@@ -273,6 +273,43 @@ func check(c Case) *vfrun.Failure {
 			clientEnded = true
 		case "servercancel":
 			cancelSrv()
+		case "raceclose":
+			// both sides end the session at (nearly) the same instant: the server context is
+			// cancelled while a client frame that makes the read loop close the connection arrives
+			clientAct := func() {
+				switch st.Op {
+				case "terminate":
+					if termType != "" {
+						send(map[string]any{"type": termType})
+					} else {
+						_ = conn.WriteControl(websocket.CloseMessage, websocket.FormatCloseMessage(websocket.CloseNormalClosure, "bye"), time.Now().Add(time.Second))
+					}
+				case "invalid":
+					_ = conn.WriteMessage(websocket.TextMessage, []byte(`{"type":"bogus"}`))
+				default:
+					send(map[string]any{"type": "connection_init"})
+					if !initSent {
+						// this is the handshake itself
+						initSent = true
+						initAcceptable = c.InitFunc != "reject" && !(c.InitTimeoutUS > 0 && c.InitTimeoutUS < 10000)
+					}
+				}
+			}
+			pause := func() {
+				if st.GapUS > 0 {
+					time.Sleep(time.Duration(st.GapUS) * time.Microsecond)
+				}
+			}
+			if st.Events == 0 {
+				cancelSrv()
+				pause()
+				clientAct()
+			} else {
+				clientAct()
+				pause()
+				cancelSrv()
+			}
+			clientEnded = true
 		case "wait":
 			time.Sleep(time.Duration(st.GapUS) * time.Microsecond)
 		}
@@ -471,6 +508,9 @@ waitLoop:
 		}
 	}
 	vfrun.Label(c.Proto)
+	if n := len(c.Steps); n > 0 && c.Steps[n-1].Kind == "raceclose" {
+		vfrun.Label("both-sides-close-at-once")
+	}
 	if acked {
 		vfrun.Label("acked")
 	}
@@ -585,14 +625,21 @@ func gen(t *rapid.T) Case {
 		case 15:
 			st.Kind = "abrupt"
 		case 16:
-			st.Kind = "servercancel"
+			if rapid.Bool().Draw(t, "raceclose?") {
+				st.Kind = "raceclose"
+				st.Op = rapid.SampledFrom([]string{"terminate", "invalid", "init"}).Draw(t, "raceact")
+				st.Events = rapid.IntRange(0, 1).Draw(t, "racefirst")
+				st.GapUS = rapid.SampledFrom([]int{0, 0, 10, 30, 60, 100, 200}).Draw(t, "racegap")
+			} else {
+				st.Kind = "servercancel"
+			}
 		case 17:
 			st.Kind, st.Payload = "init", `{}`
 		default:
 			st.Kind, st.GapUS = "wait", rapid.SampledFrom([]int{100, 1000, 3000}).Draw(t, "wait")
 		}
 		c.Steps = append(c.Steps, st)
-		if st.Kind == "terminate" || st.Kind == "abrupt" {
+		if st.Kind == "terminate" || st.Kind == "abrupt" || st.Kind == "raceclose" {
 			break
 		}
 	}
